@@ -278,13 +278,13 @@ func Shrink(cand Candidate, eval func(Candidate) (bool, []int32), maxEvals int) 
 
 // Finding is one line of /verif/known_findings.txt:
 //
-//	known: property=C07 class=<class> match=<substring of the violation text> :: description
+//	known: property=C07 class=<class> match=<substring of the violation text> [match=<another>...] :: description
 //	fixed: property=C07 <commit> <what failed>
 type Finding struct {
 	Kind     string // known | fixed
 	Property string
 	Class    string
-	Match    string
+	Match    []string // every one must occur in the violation text
 	Text     string
 }
 
@@ -323,7 +323,7 @@ func LoadFindings(path string) ([]Finding, error) {
 				f.Class = v
 			}
 			if v, ok := strings.CutPrefix(w, "match="); ok {
-				f.Match = strings.ReplaceAll(v, "_", " ")
+				f.Match = append(f.Match, strings.ReplaceAll(v, "_", " "))
 			}
 		}
 		out = append(out, f)
@@ -341,7 +341,13 @@ func MatchKnown(fs []Finding, prop, class, violation string) *Finding {
 		if f.Class != "" && f.Class != class {
 			continue
 		}
-		if f.Match != "" && !strings.Contains(violation, f.Match) {
+		all := true
+		for _, m := range f.Match {
+			if !strings.Contains(violation, m) {
+				all = false
+			}
+		}
+		if !all {
 			continue
 		}
 		return &fs[i]
